@@ -70,6 +70,11 @@ def frame(rng, body):
     else:
         enc = gen.chunk_encode(rng, body, style)
     trailers = [b"X-Trailer: t"] if rng.random() < 0.2 else []
+    if rng.random() < 0.06:
+        # a trailer section the header rules refuse: the request fails (when the body is read to its end or when the parser
+        # moves on) or the section is skipped - either way the next request starts right behind it
+        trailers = [rng.choice([b"no colon here", b"X-T : space-before-colon", b"X-T: ctl\x00value", b": empty-name", b"X T: blank in name"])]
+        style = "badtrailer"
     tail = b"0\r\n" + b"".join(t + b"\r\n" for t in trailers) + b"\r\n"
     if rng.random() < 0.2:
         tail = b"0;last\r\n" + b"".join(t + b"\r\n" for t in trailers) + b"\r\n"
@@ -188,7 +193,14 @@ def run_case(run, e1, case):
         out.append(("input-call-differs/" + op[0], "%s returned %s, file semantics give %s" % (op, got, want)))
     uris = [r["uri"] for r in obs["reqs"]]
     want_uris = ["/c07"] + ["/m-%d-k9q" % i for i in range(1, nfollow + 1)]
-    if not log:
+    if not log and case.get("framing") == "chunked/badtrailer":
+        refused = obs["terminal"][0] in ("reject", "body_error") and len(uris) <= 1
+        if not refused and (obs["terminal"] != ("end",) or uris != want_uris):
+            out.append(("next-request-misparsed/after-refused-trailers", "the trailer section is malformed: the connection yielded %s "
+                        "terminal=%s - neither refused nor continued at the first byte behind the section (%s)" % (
+                            uris, obs["terminal"], want_uris)))
+        run.count("malformed_trailer_cases")
+    elif not log:
         if obs["terminal"] != ("end",) or uris != want_uris or any("body_error" in r for r in obs["reqs"]):
             out.append(("next-request-misparsed", "after the program the connection yielded %s terminal=%s, "
                         "expected %s then clean end" % (uris, obs["terminal"], want_uris)))
@@ -228,6 +240,10 @@ def make_case(rng):
 def shard(sh):
     from vlib import e1_wire as e1
     run = Run(PROP, sh.get("tier", "quick"), sh["seed"], "exploration", RULE)
+    if sh.get("kind") == "workers":
+        # the same reads through real worker loops: keep-alive connections whose bytes arrive with pauses (engine E2)
+        from checks import c01
+        return c01.worker_shard(run, sh, label="c07-workers", varied_reads=True)
     rng = rng_for(sh["seed"], "c07", sh["sub"])
     for k in range(sh["n"]):
         if run.enough():
@@ -250,10 +266,12 @@ def shard(sh):
 def main(tier, seed):
     run = Run(PROP, tier, seed, "exploration", RULE)
     run.require("programs_completed", "stopped_before_eof", "consumed_to_eof", "followed_by_pipelined_request",
-                "framing/cl", "framing/chunked", "non_default_header_limits")
+                "framing/cl", "framing/chunked", "non_default_header_limits", "malformed_trailer_cases", "worker_connections",
+                "worker_later_call_with_body")
     q = tier == "quick"
     per = 4000 if q else 40000
-    shards = [{"n": per, "sub": s, "seed": seed, "tier": tier} for s in range(48 if q else 128)]
+    shards = [{"kind": "workers", "n": 120 if q else 2500, "sub": s, "seed": seed, "tier": tier} for s in range(8 if q else 16)]
+    shards += [{"n": per, "sub": s, "seed": seed, "tier": tier} for s in range(48 if q else 128)]
     run.assumptions = [
         "oracle = io.BytesIO(body) call by call; readlines(hint) may return more whole lines than the hint asks (PEP 3333)",
         "sizes are ints or None; non-int sizes are outside the property",
@@ -267,7 +285,24 @@ def replay(path):
     with open(path) as f:
         rec = json.load(f)
     run = Run(PROP, "quick", 0, "exploration", RULE)
-    v = run_case(run, e1, rec["case"])
+    case = rec["case"]
+    if case.get("origin") == "workers":
+        from checks import c01
+        from vlib import e2_worker as e2, ref_http
+        kind, stream = case["worker"], bytes.fromhex(case["stream"])
+        msgs = ref_http.walk(stream, "drop")
+        v = []
+        for k in range(20):         # the application's read pattern is drawn anew each time
+            h = e2.Harness(kind, {"keepalive": 2, "threads": 2} if kind == "gthread" else {"keepalive": 2})
+            app = c01._RecApp(rng_for(k, "c07-replay"))
+            h.connection(stream, app, mode="halfclose", segments=case["segments"], segment_delay=0.02, timeout=6.0)
+            h.close()
+            v = c01.judge_worker(app.calls, msgs, judge_reject=False)
+            if v:
+                print("calls:", [(c["method"], c["uri"][:40], len(c.get("body", b"")), c.get("body_error")) for c in app.calls])
+                break
+    else:
+        v = run_case(run, e1, case)
     for mech, s in v:
         print("VIOLATION property=%s replay=%s\n  %s %s" % (PROP, path, mech, s))
     if not v:
